@@ -127,7 +127,11 @@ def st_location():
         lambda d: any(v for v in d.values()))  # documented: at least one element must be set
 
 
-def st_op(inv: Inventory, kinds=None, descriptor_ops=True, context_ops=True, multi=True, kw_hold=True, aborts=True):  # noqa: C901, ARG001
+def st_op(inv: Inventory, kinds=None, descriptor_ops=True, context_ops=True, multi=True, kw_hold=True, aborts=True,  # noqa: C901, ARG001, PLR0913
+          ctx_delete=True):
+    """ctx_delete: removal of a context state through the entity interface.  The library documents that such a removal
+    'cannot be communicated via notification': programs whose effect is observed through reports by a consumer (mirror
+    properties) are generated without it."""
     opts = []
     for kind in (kinds or STATE_KINDS):
         if inv.states[kind]:
@@ -151,7 +155,8 @@ def st_op(inv: Inventory, kinds=None, descriptor_ops=True, context_ops=True, mul
         classes = sorted({c for _, c in inv.context_descriptors})
         opts.append(st.tuples(st.just('ctx_update'), ctx_handles,
                               st.sampled_from(classes).flatmap(_state_spec), st.one_of(st.none(), assoc), IFACE).map(list))
-        opts.append(st.tuples(st.just('ctx_delete'), ctx_handles).map(list))
+        if ctx_delete:
+            opts.append(st.tuples(st.just('ctx_delete'), ctx_handles).map(list))
         one = st.tuples(ctx_handles, st.sampled_from(classes).flatmap(_state_spec), st.one_of(st.none(), assoc)).map(list)
         opts.append(st.tuples(st.just('ctx_multi'), st.lists(one, min_size=2, max_size=3)).map(list))
         if inv.location_descriptors:
